@@ -226,6 +226,9 @@ func replaceIfNaturalLanguageValues(old, new NaturalLanguageValues) NaturalLangu
 }
 
 func replaceIfSource(to, from Source) Source {
+	if len(from.MediaType) == 0 && from.Content == nil {
+		return to
+	}
 	if from.MediaType != to.MediaType {
 		return from
 	}
